@@ -51,6 +51,26 @@ func (e *Engine) discharge(obls []*Obligation, outDir string, timeoutS, workers 
 		}(i, o)
 	}
 	wg.Wait()
+	// a timeout may be the machine's load rather than the query: the first few timed-out queries are run again,
+	// three at a time and with three times the limit, before they count as undischarged
+	retried := 0
+	sem2 := make(chan struct{}, 3)
+	for i := range res {
+		if res[i].r == nil || res[i].r.Status != "timeout" || res[i].o.Cover || retried >= 16 {
+			continue
+		}
+		retried++
+		wg.Add(1)
+		sem2 <- struct{}{}
+		go func(i int) {
+			defer wg.Done()
+			defer func() { <-sem2 }()
+			r2 := e.solve(res[i].o, outDir, 80000+i, 3*timeoutS, false)
+			r2.Detail = "retried after a timeout: " + r2.Detail
+			res[i].r = r2
+		}(i)
+	}
+	wg.Wait()
 	return res
 }
 
